@@ -87,6 +87,12 @@ def shapeOf (t : List Row) : Shape :=
     delCheckInLock := sameSectionW t "DB.Delete" "idxGet" "append"
     delIndexInLock := sameSectionW t "DB.Delete" "idxDel" "append" }
 
+/-- `DB.Merge` captures the set of files to merge (`olderFiles`, and with it the boundary
+`nonMergeFileId`) in the same W section of `db.mu` in which it rotates the active file: no writer
+can be between its append and its index update at that moment (`ConcMerge.StepM.mstart`). -/
+def mergeStartInLock (t : List Row) : Bool :=
+  sameSectionW t "DB.Merge" "read:olderFiles" "write:activeFile"
+
 /-- The table has the shape for which `C08_restart_agrees` / `C08_linearizable` are proved. -/
 def WellLocked (t : List Row) : Prop := shapeOf t = Shape.allTrue
 instance (t : List Row) : Decidable (WellLocked t) := inferInstanceAs (Decidable (_ = _))
